@@ -1085,6 +1085,8 @@ def tree(draw, s, dt, depth, first=None):
         a = (0 if axis is None else axis % nd)
         if s[a] < k:
             k = max(1, s[a])
+        if k == 1:
+            return tree(draw, s, dt, depth - 1, first)
         cuts = sorted(draw(st.lists(st.integers(1, s[a] - 1), min_size=k - 1, max_size=k - 1, unique=True))) if k > 1 else []
         bounds = [0] + cuts + [s[a]]
         ishapes = []
@@ -1108,6 +1110,8 @@ def tree(draw, s, dt, depth, first=None):
         a = 0 if iaxis is None else iaxis % nd
         if s[a] < k:
             k = max(1, s[a])
+        if k == 1:
+            return tree(draw, s, dt, depth - 1, first)
         cuts = sorted(draw(st.lists(st.integers(1, s[a] - 1), min_size=k - 1, max_size=k - 1, unique=True))) if k > 1 else []
         bounds = [0] + cuts + [s[a]]
         ishapes = []
